@@ -14,7 +14,7 @@ RULE = ("42 classes x offering tables x argument tuples with at most k deviation
         "block commands (products above 2^22 bytes skipped) ; ATA PASS-THROUGH 12/16: full product t_length(4) x byte_block x t_type x t_dir x "
         "data given/omitted x blocksize {0,512,4096} x extra_tl {None,3} x count/features {0,1,2,max8,(max16)} ; MODE SELECT / PR OUT / EXTENDED COPY "
         "with parameter dictionaries of several sizes. Every constructed command is executed on an SG_IO and an iSCSI device (stand-ins), which take "
-        "len() of both buffers; the iSCSI task direction/length is compared with the same numbers; afterwards the result is decoded (unmarshall) and both buffers must still be the same objects of the same length. Non-trivial = a deviation or a non-default "
+        "len() of both buffers; the iSCSI task direction/length is compared with the same numbers; afterwards the result is decoded (unmarshall) and both buffers must still be the same objects of the same length; 12 data-in facade methods on both transports answered with a well-formed response and 8 truncated / garbage ones (a length field announcing more than was transferred): every command reaching the target and the command handed back satisfy the same relation. Non-trivial = a deviation or a non-default "
         "block size; distinct = distinct (class, table, tuple, blocksize).")
 ASSUMPTIONS = [
     "expected lengths are computed from the CDB bytes with vf/spec/cdb.py: ALLOCATION LENGTH, TRANSFER LENGTH x block size, PARAMETER LIST LENGTH, SAT transfer rules (T_LENGTH selects FEATURES/COUNT/TPSIU, BYT_BLOK/T_TYPE select 1/512/sector size, T_DIR the direction)",
@@ -39,6 +39,7 @@ def partitions(tier):
             continue
         for st, key in c["tables"]:
             parts.append([name, st, key, None])
+    parts += [["facade", tr, m] for tr in ("sgio", "iscsi") for m in FACADE_IN]
     return parts
 
 
@@ -235,13 +236,84 @@ def run_case(case, obs=None):
     return v
 
 
+FACADE_IN = ["inquiry", "modesense6", "modesense10", "reportluns", "reporttargetportgroups", "reportpriority", "readelementstatus",
+             "readdiscinformation", "persistentreservein", "getlbastatus", "readcapacity16", "readcapacity10"]
+PRIN_CLASSES = ["PersistentReserveInReadKeys", "PersistentReserveInReadReservation", "PersistentReserveInReportCapabilities",
+                "PersistentReserveInReadFullStatus"]
+
+
+def run_facade(case, obs=None):
+    """a facade call answered by a device that announces more data than was transferred (or garbage): every command that reaches
+    the target, and the command handed back, must still satisfy 'data-in buffer == what the CDB announces'"""
+    from vf import facade as F
+    from vf.props import c13
+    _, tr, method, st, extra, variant = case
+    name = F.FACADE[method][0]
+    rig = harness.Rig(tr, F.SET_TO_TYPE[st])
+    out = []
+    try:
+        s = rig.facade(512)
+        allkw = dict(F.FACADE[method][2])
+        allkw.update(extra)
+        resp = c13.response_for(method, allkw, variant)
+        rig.target.responder = lambda cdb: resp
+        n0 = len(rig.target.log)
+        try:
+            cmd = F.call(s, method, **extra)
+        except Exception:   # noqa: BLE001 - refusing to decode garbage is fine here
+            cmd = None
+        cname = PRIN_CLASSES[allkw.get("service_action", 0)] if method == "persistentreservein" else name
+        where = "%s(%r) over %s answered with response variant %d" % (method, extra, tr, variant)
+        for i, rec in enumerate(rig.target.log[n0:]):
+            if rec["cdb"][0] != S.CLASSES[cname]["op"]:
+                continue
+            d = S.decode(cname, rec["cdb"])
+            want = d["alloc_len"] if "alloc_len" in d else 8 if cname == "ReadCapacity10" else None
+            if want is not None and rec["datain_len"] != want:
+                out.append(("facade/datain_len/%s" % method, "%s: command #%d reached the target with CDB %s (announcing %d bytes) and a %d byte data-in buffer"
+                            % (where, i + 1, rec["cdb"].hex(), want, rec["datain_len"])))
+        if cmd is not None:
+            v, _, _ = judge(cname, cmd, {}, where + " (returned command)")
+            out += [("facade/" + k, w) for k, w in v]
+        if obs is not None:
+            obs.append(len(rig.target.log) - n0)
+    finally:
+        rig.close()
+    return out
+
+
 def replay(case):
-    return run_case(case)
+    return run_facade(case) if case[0] == "facade" else run_case(case)
 
 
 def run_partition(part, tier, seed):
     ensure_rigs()
     acc = Acc(seed)
+    if part[0] == "facade":
+        from vf import facade as F
+        _, tr, method = part
+        extras = [{}]
+        if method == "persistentreservein":
+            extras = [{"service_action": sa} for sa in range(4)]
+        elif method == "inquiry":
+            extras = [{}, {"evpd": 1, "page_code": 0x83}, {"evpd": 1, "page_code": 0xB0}, {"alloclen": 8}]
+        elif method in ("modesense6", "modesense10"):
+            extras = [{"page_code": 0x0A}, {"page_code": 0x3F, "alloclen": 24}]
+        for st in F.sets_offering(method):
+            for extra in extras:
+                for variant in (0, 2, 3, 4, 5, 6, 7, 8, 9):
+                    case = ["facade", tr, method, st, extra, variant]
+                    acc.case(case, nontrivial=True, key=repr(case))
+                    obs = []
+                    try:
+                        v = run_facade(case, obs)
+                    except Exception:
+                        import traceback
+                        v = [("harness_error", traceback.format_exc()[-600:])]
+                    for kk, w in v:
+                        acc.violation(kk, w, case)
+                    acc.outcome((method, tuple(obs), tuple(x for x, _ in v)))
+        return acc
     name, st, key, ata_tl = part
     k = bounds(tier)["k"]
     if CS.get_opcode(st, key) is None:
